@@ -16,6 +16,8 @@ pub(crate) struct XmlSerializer<'a, N: Normalizer> {
     parameters: TokenSerializeParameters,
     // elements for which an `xmlns=""` undeclaration has been written
     undeclared: Vec<Node>,
+    // the node that is being serialized
+    top: Node,
 }
 
 impl<'a, N: Normalizer> XmlSerializer<'a, N> {
@@ -42,6 +44,7 @@ impl<'a, N: Normalizer> XmlSerializer<'a, N> {
             normalizer,
             parameters,
             undeclared: Vec::new(),
+            top: node,
         }
     }
 
@@ -64,6 +67,7 @@ impl<'a, N: Normalizer> XmlSerializer<'a, N> {
     ) -> Result<(), Error> {
         let is_suppressed = |name_id| suppress.contains(&name_id);
         let mut pretty = Pretty::new(self.xot, is_suppressed, |_| false);
+        pretty.seed_context(self.top);
         for (node, output) in outputs {
             let (indentation, newline) = pretty.prettify(node, &output);
             if indentation > 0 {
